@@ -289,6 +289,54 @@ func ruleCopyLimit(c *Ctx) {
 				}
 				add(key, b.rel(dcFn.Pos()), bad == "", "size = len(marshal(src)#0) and the node is built from those bytes", bad)
 
+				// the encoder call may sit in a helper of deepCopy (encode, validate, return the
+				// bytes): the helper's own call is the one compared, provided the helper is handed
+				// deepCopy's source and options parameters and returns the encoder's bytes
+				if marsh != nil {
+					if hf := marsh.Call.StaticCallee(); hf != nil && hf.Pkg == b.Lib && len(hf.Blocks) > 0 && b.Codec != nil {
+						var inner *ssa.Call
+						nInner := 0
+						allInstrs(hf, func(i ssa.Instruction) {
+							if cc, ok := i.(*ssa.Call); ok {
+								if g := cc.Call.StaticCallee(); g != nil && g.Pkg == b.Codec && strings.HasPrefix(g.Name(), "Marshal") {
+									inner = cc
+									nInner++
+								}
+							}
+						})
+						okHelper := nInner == 1 && len(inner.Call.Args) > 0
+						if okHelper {
+							// the helper encodes its first parameter …
+							a0 := inner.Call.Args[0]
+							if mi, isMI := a0.(*ssa.MakeInterface); isMI {
+								a0 = mi.X
+							}
+							if a0 != ssa.Value(hf.Params[0]) {
+								okHelper = false
+							}
+							// … returns exactly those bytes on success …
+							ei := errResultIndex(hf)
+							for _, r := range returnsOf(hf) {
+								if ei >= 0 && b.definitelyNonNilErr(r.Results[ei], r.Block(), 0) {
+									continue
+								}
+								ex, isEx := r.Results[0].(*ssa.Extract)
+								if !isEx || ex.Tuple != ssa.Value(inner) || ex.Index != 0 {
+									okHelper = false
+								}
+							}
+							// … and is given deepCopy's own parameters
+							for _, a := range marsh.Call.Args {
+								if _, isP := a.(*ssa.Parameter); !isP {
+									okHelper = false
+								}
+							}
+						}
+						if okHelper {
+							marsh = inner
+						}
+					}
+				}
 				// same encoder + same escaping option as the final output (v5)
 				if marsh != nil && b.optionsHasField("EscapeHTML") {
 					key = "(ii) size: measured as spelled in the output (same encoder call, same EscapeHTML option)"
